@@ -31,7 +31,8 @@ Proof. exact bump1_count. Qed.
    opts_invisible, for EVERY input (arbitrary bytes, any reader oracle, success or failure): the two runs are
    related by a simulation "equal except ds_unkf / ds_unkm" (Proofs/StreamDenoteOpts.v: psim, sound for both the
    abstract and the buffered interpreter).  [project] keeps error, header, File without the two lists, the reader
-   after the call (rd_pos = bytes consumed), accumulators and quirk tags. *)
+   after the call (rd_pos = bytes consumed), accumulators and the tag list dr_quirks (always empty since both
+   C12 time defects are repaired). *)
 Theorem C16_opts_invisible : forall o md g rd fuel,
   project (decode o md g rd fuel) = project (decode no_opts md g rd fuel).
 Proof. exact opts_invisible. Qed.
@@ -48,11 +49,12 @@ Theorem C16_records_opts_invisible : forall o fuel x s s', eqv s s' ->
   rsim (run_a (decode_file_data o fuel) x s) (run_a (decode_file_data no_opts fuel) x s').
 Proof. exact records_opts_invisible_abstract. Qed.
 
-(* unknown_counts_exact (success case): on every stream in the domain of C02_decode_denote the two lists the File
-   reports are the reference counts (records of each unknown message; occurrences of each unlisted field of known
-   messages), sorted *)
+(* unknown_counts_exact (success case): on every stream in the domain of C02_decode_denote (every serialisable
+   stream the reference semantics accepts that starts with file_id and has a hosted file type; no time side
+   condition) the two lists the File reports are the reference counts (records of each unknown message; occurrences
+   of each unlisted field of known messages), sorted *)
 Theorem C16_unknown_counts_exact : forall o h g rs ss1 f2 g1 tl t,
-  starts_with_file_id rs = true -> stream_wf rs = true -> no_time_quirk rs = true -> denote rs = Some ss1 ->
+  starts_with_file_id rs = true -> stream_wf rs = true -> denote rs = Some ss1 ->
   start_file h g (hd dummy_msg (ss_msgs ss1)) = Some (f2, g1) ->
   let L := List.length (ser_records rs) in
   exists s1,
@@ -99,7 +101,7 @@ Proof. exact loop_grows. Qed.
    reference counts of the completed records *)
 Theorem C16_counts_on_failure_lower : forall rs o pre fb gb ft s0 ss0 ss1 junk t n lim fuel,
   Inv o pre fb gb ft s0 ss0 ->
-  stream_wf rs = true -> no_time_quirk_from ss0 rs = true -> denote_from ss0 rs = Some ss1 ->
+  stream_wf rs = true -> denote_from ss0 rs = Some ss1 ->
   (n + List.length (ser_records rs) <= lim)%nat ->
   post (fun sf => (o_unkm o = true -> le1 (ss_unkm ss1) (ds_unkm sf)) /\
                   (o_unkf o = true -> le2 (ss_unkf ss1) (ds_unkf sf)))
@@ -109,8 +111,8 @@ Proof. exact counts_on_failure_lower. Qed.
    counts of the completed records and those including the record in flight ... *)
 Theorem C16_counts_on_failure_truncated : forall rs r cut rem o pre fb gb ft s0 ss0 ss1 ss2 t n lim fuel,
   Inv o pre fb gb ft s0 ss0 ->
-  stream_wf rs = true -> no_time_quirk_from ss0 rs = true -> denote_from ss0 rs = Some ss1 ->
-  rec_wf r = true -> record_time_ok ss1 r = true -> denote_record ss1 r = Some ss2 ->
+  stream_wf rs = true -> denote_from ss0 rs = Some ss1 ->
+  rec_wf r = true -> denote_record ss1 r = Some ss2 ->
   ser_record r = cut ++ rem -> rem <> [] ->
   (n + List.length (ser_records rs) <= lim)%nat ->
   post (fun sf =>
@@ -123,8 +125,8 @@ Print Assumptions C16_counts_on_failure_truncated.
    decoder error or a panic ... *)
 Theorem C16_truncated_outcome : forall rs r cut rem o pre fb gb ft s0 ss0 ss1 ss2 t n lim fuel,
   Inv o pre fb gb ft s0 ss0 ->
-  stream_wf rs = true -> no_time_quirk_from ss0 rs = true -> denote_from ss0 rs = Some ss1 ->
-  rec_wf r = true -> record_time_ok ss1 r = true -> denote_record ss1 r = Some ss2 ->
+  stream_wf rs = true -> denote_from ss0 rs = Some ss1 ->
+  rec_wf r = true -> denote_record ss1 r = Some ss2 ->
   ser_record r = cut ++ rem -> rem <> [] ->
   (n + List.length (ser_records rs) <= lim)%nat -> (List.length rs < fuel)%nat ->
   match run_a (decode_file_data o fuel) (mk_ast (ser_records rs ++ cut) t n lim) s0 with
@@ -137,8 +139,8 @@ Proof. exact truncated_outcome. Qed.
    because keys are distinct) *)
 Theorem C16_counts_on_failure_file : forall rs r cut rem o pre fb gb ft s0 ss0 ss1 ss2 t n lim fuel,
   Inv o pre fb gb ft s0 ss0 -> distinct_keys s0 ->
-  stream_wf rs = true -> no_time_quirk_from ss0 rs = true -> denote_from ss0 rs = Some ss1 ->
-  rec_wf r = true -> record_time_ok ss1 r = true -> denote_record ss1 r = Some ss2 ->
+  stream_wf rs = true -> denote_from ss0 rs = Some ss1 ->
+  rec_wf r = true -> denote_record ss1 r = Some ss2 ->
   ser_record r = cut ++ rem -> rem <> [] ->
   (n + List.length (ser_records rs) <= lim)%nat ->
   post (fun sf =>
@@ -162,9 +164,9 @@ Theorem C16_Decode_counts_on_failure :
   header_wf h ->
   rd_data rd = hdr_bytes h ++ ser_records rs ++ cut ->
   (List.length (ser_records rs ++ cut) < N.to_nat (h_dsize h))%nat ->
-  stream_wf rs = true -> no_time_quirk rs = true -> denote rs = Some ss1 ->
+  stream_wf rs = true -> denote rs = Some ss1 ->
   start_file h g (hd dummy_msg (ss_msgs ss1)) = Some (f2, g1) ->
-  rec_wf r = true -> record_time_ok ss1 r = true -> denote_record ss1 r = Some ss2 ->
+  rec_wf r = true -> denote_record ss1 r = Some ss2 ->
   ser_record r = cut ++ rem -> rem <> [] ->
   (List.length (rd_data rd) + List.length (rd_sched rd) < fuel)%nat ->
   exists e file' rd' g' q,
